@@ -6,8 +6,9 @@ import Uft.Model.Script
    Analysis time (one line in, one line out):
      RUN  <opt>… | <task 0 records> | <task 1 records> | …     -> callbacks of `uftrace script`
      SHOW <opt>… | …                                           -> lines of `uftrace replay --no-merge`
-       opt:    depth=<n> modein=<0|1> thr=<n> showargs=<0|1> argsfixed=<0|1>
+       opt:    depth=<n> modein=<0|1> thr=<n> showargs=<0|1> argsfixed=<0|1> exitaddr=<0|1>
                F=<fn,…> N=<fn,…> funcs=<fn,…> argtrig=<fn,…>      (function numbers; `-` = none)
+               fix=<fn>:<e|s|l|f>,…   fix-up symbols: exec, setjmp, longjmp, fork     parent=<task>:<parent task>,…
        record: E:<time>:<depth>:<fn>:<payload>  |  X:<time>:<depth>:<fn>:<payload>
        output: B E:<tid>:<depth>:<time>:<fn>:<args> X:<tid>:<depth>:<time>:<dur>:<fn>:<args> … END
                (tid = index of the task; SHOW prints the same tokens without B / END)
@@ -23,6 +24,24 @@ open Uft.Script
 def parseList (s : String) : List Nat :=
   if s = "-" || s = "" then [] else (s.splitOn ",").filterMap (·.toNat?)
 
+/-- function numbers of the analysis-time lines: function `n` has model address `n + 1`, so that address 0
+    — what a frame slot holds that no ENTRY has filled — is not a function; printed back as `n`, 0 as `none` -/
+def parseFns (s : String) : List Nat := (parseList s).map (· + 1)
+
+def parsePairs (s : String) : List (String × String) :=
+  if s = "-" || s = "" then [] else
+  (s.splitOn ",").filterMap fun w => match w.splitOn ":" with
+    | [a, b] => some (a, b)
+    | _ => none
+
+def kindOf (s : String) : FixKind :=
+  match s with
+  | "e" => .exec
+  | "s" => .setjmp
+  | "l" => .longjmp
+  | "f" => .fork
+  | _ => .none
+
 def applyOpt (c : Cfg × Nat) (item : String) : Cfg × Nat :=
   let (k, v) := Driver.Mcount.kv item
   let n := v.toNat?.getD 0
@@ -32,17 +51,26 @@ def applyOpt (c : Cfg × Nat) (item : String) : Cfg × Nat :=
   | "thr" => (c.1, n)
   | "showargs" => ({ c.1 with showArgs := n != 0 }, c.2)
   | "argsfixed" => ({ c.1 with argsFixed := n != 0 }, c.2)
+  | "exitaddr" => ({ c.1 with exitAddrFixed := n != 0 }, c.2)
   | "F" =>
-    let l := parseList v
+    let l := parseFns v
     let old := c.1.filt
     ({ c.1 with filt := fun a => if l.contains a then some true else old a }, c.2)
   | "N" =>
-    let l := parseList v
+    let l := parseFns v
     let old := c.1.filt
     ({ c.1 with filt := fun a => if l.contains a then some false else old a }, c.2)
-  | "funcs" => ({ c.1 with funcs := parseList v }, c.2)
+  | "funcs" => ({ c.1 with funcs := parseFns v }, c.2)
+  | "fix" =>
+    let l := (parsePairs v).filterMap fun (a, b) => a.toNat?.map fun n => (n + 1, kindOf b)
+    ({ c.1 with fix := fun a => (l.lookup a).getD .none }, c.2)
+  | "parent" =>
+    let l := (parsePairs v).filterMap fun (a, b) => match a.toNat?, b.toNat? with
+      | some x, some y => some (x, y)
+      | _, _ => none
+    ({ c.1 with parent := fun i => l.lookup i }, c.2)
   | "argtrig" =>
-    let l := parseList v
+    let l := parseFns v
     ({ c.1 with argTrig := fun a => l.contains a }, c.2)
   | _ => c
 
@@ -51,8 +79,8 @@ def parseRec (tok : String) : Option Rec :=
   | [k, t, d, a, p] =>
     match t.toNat?, d.toNat?, a.toNat?, p.toNat? with
     | some t, some d, some a, some p =>
-      if k = "E" then some { time := t, exit := false, depth := d, addr := a, payload := p }
-      else if k = "X" then some { time := t, exit := true, depth := d, addr := a, payload := p }
+      if k = "E" then some { time := t, exit := false, depth := d, addr := a + 1, payload := p }
+      else if k = "X" then some { time := t, exit := true, depth := d, addr := a + 1, payload := p }
       else none
     | _, _, _, _ => none
   | _ => none
@@ -63,9 +91,11 @@ def splitBar (ws : List String) : List (List String) :=
     | [] => [[w]]
     | a :: r => (w :: a) :: r) [[]]
 
+def showFn (a : Nat) : String := if a = 0 then "none" else toString (a - 1)
+
 def showCtx (k : String) (withDur : Bool) (c : Ctx) : String :=
-  if withDur then s!"{k}:{c.tid}:{c.depth}:{c.time}:{c.dur}:{c.addr}:{c.args}"
-  else s!"{k}:{c.tid}:{c.depth}:{c.time}:{c.addr}:{c.args}"
+  if withDur then s!"{k}:{c.tid}:{c.depth}:{c.time}:{c.dur}:{showFn c.addr}:{c.args}"
+  else s!"{k}:{c.tid}:{c.depth}:{c.time}:{showFn c.addr}:{c.args}"
 
 def showCb : Cb → String
   | .begin => "B"
@@ -80,9 +110,9 @@ def handle (cmd : String) (ws : List String) : String :=
     let ts := tasks.map fun t => t.filterMap parseRec
     if (tasks.map List.length) != (ts.map List.length) then "bad-record" else
     let stream := readAll thr ts
-    if cmd = "RUN" then " ".intercalate ((scriptRun cfg stream).2.map showCb)
+    if cmd = "RUN" then " ".intercalate ((scriptRunX cfg stream).2.map showCb)
     else
-      let l := (replayShown cfg stream).2.map fun l => showCb l.toCb
+      let l := (replayShownX cfg stream).2.map fun l => showCb l.toCb
       if l.isEmpty then "-" else " ".intercalate l
   | [] => "bad-op"
 
